@@ -159,18 +159,21 @@ fn reset_config() {
 fn epilogue(wd: &World) {
     let top = Cx::Top;
     let mut acts: Vec<Act> = Vec::new();
-    for i in 0..NC {
-        acts.push(Act::CDrop { c: i as u8 });
-    }
-    for i in 0..NR {
-        acts.push(Act::Drop { dst: Dst::R(i as u8) });
-    }
-    for i in 0..NG {
-        acts.push(Act::Drop { dst: Dst::G(i as u8) });
-    }
-    acts.push(Act::CollectQuiet);
-    for i in 0..NWR {
-        acts.push(Act::WDrop { dst: WLoc::WR(i as u8) });
+    // twice: callbacks that run while the first round releases things may store new handles / cleanables
+    for _ in 0..2 {
+        for i in 0..NC {
+            acts.push(Act::CDrop { c: i as u8 });
+        }
+        for i in 0..NR {
+            acts.push(Act::Drop { dst: Dst::R(i as u8) });
+        }
+        for i in 0..NG {
+            acts.push(Act::Drop { dst: Dst::G(i as u8) });
+        }
+        acts.push(Act::CollectQuiet);
+        for i in 0..NWR {
+            acts.push(Act::WDrop { dst: WLoc::WR(i as u8) });
+        }
     }
     for (i, a) in acts.iter().enumerate() {
         if wd.failed() {
